@@ -68,13 +68,14 @@ func vc12Seeds(dir string, rng *vh.Rng) ([]c12h.Seed, error) {
 		d, nums := vc12Build(rng, sizes, i == 2)
 		seeds = append(seeds, c12h.Seed{Name: fmt.Sprintf("car%d", i), Data: d, Nums: nums})
 	}
-	for i := range seeds {
-		in := c12h.Input{Entry: "nextnode", Data: seeds[i].Data}
+	seeds = c12h.KeepSeeds(seeds, func(i int, s *c12h.Seed) error {
+		in := c12h.Input{Entry: "nextnode", Data: s.Data}
 		o := vc12Exec(&in)
-		if o.Class != "ok" || int(o.Nums[0]) != (len(seeds[i].Nums)-1)/4 {
-			return nil, fmt.Errorf("seed %s does not read back (%v)", seeds[i].Name, o)
+		if o.Class != "ok" || len(o.Nums) == 0 || int(o.Nums[0]) != (len(s.Nums)-1)/4 {
+			return fmt.Errorf("does not read back (%v)", o)
 		}
-	}
+		return nil
+	})
 	return seeds, nil
 }
 
